@@ -48,9 +48,12 @@ class C07(Property):
             return
         tracks = T.run_tracker(spec, etc, grid)
         ent, problems = T.identify(tracks, etc)
-        if problems:
+        only_missing = bool(problems) and all(p.endswith("appear in no track") for p in problems)
+        if problems and not only_missing:
             ctx.skip("unidentifiable (judged by C06)")
             return
+        # droplets that appear in no track are C06's concern, but the links that do exist are still judged here (a droplet that
+        # belongs to no track cannot be linked, so "the tracks follow the one-to-one relation" fails for it)
         method = spec["method"]
         md = spec["max_dist"]
         md = np.inf if md in (None, "inf") else float(md)
@@ -72,6 +75,11 @@ class C07(Property):
             for a, b in zip(e, e[1:]):
                 if b[0] == a[0] + 1:
                     links.add((a, b))
+                elif method == "overlap" and b[0] > a[0] + 1:
+                    # the droplet continues a track that has no entry in the previous frame: whatever it overlaps there, it is
+                    # not linked to it - either it should have started a new track or it should follow the overlap relation
+                    ctx.fail("overlap:link-skips-frames", f"droplet {b[1]} of frame {b[0]} continues a track whose last entry is in frame {a[0]}")
+                    return
                 else:
                     ctx.skip("non-consecutive link (judged by C06)")
                     return
